@@ -11,6 +11,7 @@ import (
 	"pgregory.net/rapid"
 	"verif/harness/graph"
 	"verif/harness/kit"
+	"verif/harness/model"
 	"verif/harness/zoo"
 )
 
@@ -58,6 +59,17 @@ func run(b *zoo.Beh) error {
 	}
 	return nil
 }
+
+// stateless runners: zero-size struct types (they all share one address)
+var zruns [3]int
+
+type ZRun0 struct{}
+type ZRun1 struct{}
+type ZRun2 struct{}
+
+func (*ZRun0) Run() error { zruns[0]++; return nil }
+func (*ZRun1) Run() error { zruns[1]++; return nil }
+func (*ZRun2) Run() error { zruns[2]++; return nil }
 
 // ghost: a runner that is NOT registered; it sits in the App's exported runner slice before the start.
 type ghost struct{ calls int }
@@ -129,10 +141,27 @@ func TestRunners(t *testing.T) {
 			in.IDs[reflect.ValueOf(c).Pointer()] = b.ID
 			in.Extra = append(in.Extra, c)
 		}
+		nz := rapid.IntRange(0, 3).Draw(t, "nstateless")
+		zruns = [3]int{}
+		for i := 0; i < nz; i++ {
+			in.Extra = append(in.Extra, []any{&ZRun0{}, &ZRun1{}, &ZRun2{}}[i])
+		}
 		in.Extra = rapid.Permutation(in.Extra).Draw(t, "extraorder")
 		nobs := rapid.IntRange(0, 2).Draw(t, "nobs")
+		veto := ""
 		for k := 0; k < nobs; k++ {
-			in.Extra = append(in.Extra, &graph.ObsPP{Tag: fmt.Sprintf("o%d", k), Log: in.Log})
+			o := &graph.ObsPP{Tag: fmt.Sprintf("o%d", k), Log: in.Log}
+			// now and then a before-initialization hook vetoes one eager node: (nil, error)
+			if veto == "" && rapid.IntRange(0, 5).Draw(t, "veto") == 0 {
+				for i, n := range s.Nodes {
+					if n.Variant != 'L' {
+						veto, _ = model.NameOf(in.Comps[i])
+						o.FailBefore = veto
+						break
+					}
+				}
+			}
+			in.Extra = append(in.Extra, o)
 		}
 		// sometimes the App's exported runner slice already holds something when the start begins
 		var gh *ghost
@@ -166,7 +195,19 @@ func TestRunners(t *testing.T) {
 			}
 		}
 		// a start that failed before the runner phase is C09's subject
-		preFailure := in.Out.Err != nil && len(seq) == 0 && (failing < 0 || initFaults > 0)
+		preFailure := in.Out.Err != nil && len(seq) == 0 && (failing < 0 || initFaults > 0 || veto != "")
+		if veto != "" && in.Out.Err == nil {
+			t.Fatalf("C13: a before-initialization hook failed for the eager component %q, yet Run returned nil and %d runner(s) ran\n%s", veto, len(seq), desc)
+		}
+		for i := 0; i < nz; i++ {
+			want := 1
+			if in.Out.Err != nil {
+				want = zruns[i] // a failed / aborted start: covered by the sequence checks below
+			}
+			if zruns[i] != want {
+				t.Fatalf("C13: stateless runner %d was invoked %d times in a start that returned nil (every registered runner exactly once)\n%s", i, zruns[i], desc)
+			}
+		}
 		if preFailure {
 			kit.Rec.Case(desc, false, "start-failed-before-runners")
 			return
